@@ -1329,6 +1329,7 @@ func c13gSuite(r *Result, rng *rand.Rand, tier string) {
 
 	c13gLoadFix(r)
 	r.H("graph-repairs-in-tree", fmt.Sprintf("F27-filter=%v F28-root=%v F29-distinct=%v", c13gFix.Filter, c13gFix.Root, c13gFix.Distinct))
+	c13gProbeWitnesses(r)
 	nrand, maxN := 500, 6
 	if tier == "thorough" {
 		nrand, maxN = 6000, 9
@@ -1441,8 +1442,13 @@ func c13gSuite(r *Result, rng *rand.Rand, tier string) {
 			}
 		}
 	}
-	// re-confirm the listed defects; a witness whose entry is no longer listed (repaired) is an ordinary case: the
-	// oracle demands the documented behaviour of it (exactly once per record, one row per record, join rows)
+}
+
+// c13gProbeWitnesses re-confirms the listed defects on their minimal witnesses (first thing in the suite, so that a
+// witness that fails although its entry is no longer listed is the FIRST violation reported).  A witness whose entry
+// is no longer listed (repaired) is an ordinary case: the oracle demands the documented behaviour of it (exactly once
+// per record, one row per record, join rows).
+func c13gProbeWitnesses(r *Result) {
 	wit := c13gFindingWitnesses()
 	var wids []string
 	for id := range wit {
